@@ -281,7 +281,11 @@ class ANSI (term):
     def process (self, c):
         """Process a single character. Called by :meth:`write`."""
         if isinstance(c, bytes):
-            c = self._decode(c)
+            # The bytes may complete no character yet (the rest of a multi-byte
+            # character comes with a later call) or more than one.
+            for ch in self._decode(c):
+                self.state.process(ch)
+            return
         self.state.process(c)
 
     def process_list (self, l):
